@@ -11,7 +11,7 @@ from .reqkit import frame
 
 MANIFEST_ENTRY = {
     'category': 'proof',
-    'text': 'effect frame: for every ValueFunc subclass found in the source (recomputed on each run, so a new built-in is covered) the set of OS effects reachable from its execute method through the package call graph is computed from a default-deny effect table, and a class with a file/process/script-loading effect is proved (symbolic execution of its constructor) to clear its secure flag on every path; binder: bind_native_fun leaves the environment unchanged when the base flag is on and the function is not secure, reads the flag through the base frame, and writes only name and alias; bind_native hands every function value to that binder for every native name and alias (symbolic strings) - no other path binds a function; ownership: effectful classes are constructed only inside bind_native and, for `run`, under `if not secure` in the interpreter constructor; the flag is written only when the base environment is built, assignment nodes reject checkerlang_* names at construction, put/def only write the current (never the base) frame; the only file access reachable in secure mode is require reading module sources; exhaustive cross-check of all native names x {no alias, alias} x {legacy, non-legacy} on real secure interpreters; the module table belongs to the base environment allocated per interpreter (allocation contracts shared with C10), so modules loaded by a non-secure interpreter are not reachable from a secure one - stand-in with that history',
+    'text': 'effect frame: for every ValueFunc subclass found in the source (recomputed on each run, so a new built-in is covered) the set of OS effects reachable from its execute method through the package call graph is computed from a default-deny effect table, and a class with a file/process/script-loading effect is proved (symbolic execution of its constructor) to clear its secure flag on every path; binder: bind_native_fun leaves the environment unchanged when the base flag is on and the function is not secure, reads the flag through the base frame, and writes only name and alias; bind_native hands every function value to that binder for every native name and alias (symbolic strings) - no other path binds a function; ownership: effectful classes are constructed only inside bind_native and, for `run`, under `if not secure` in the interpreter constructor; the flag is written only when the base environment is built, assignment nodes reject checkerlang_* names at construction, put/def only write the current (never the base) frame; the only file access reachable in secure mode is require reading module sources; exhaustive cross-check of all native names x {no alias, alias} x {legacy, non-legacy} on real secure interpreters; the module table belongs to the base environment allocated per interpreter (allocation contracts shared with C10), so modules loaded by a non-secure interpreter are not reachable from a secure one - stand-in with that history; the base of an environment attached with withParent is the root of its current chain (and itself again once detached); programs run in caller-supplied environments (bounded; one listed known finding)',
     'note': 'the effect table for the Python standard library is hand-written and trusted (anything not listed counts as effectful); get_env (environment variables) is not one of the accesses the property lists; reachability through values is discharged by construction-site ownership plus the binder guard, cross-checked by walking the value graph of real secure interpreters',
     'technique': 'deductive verification: effect-frame obligations from the AST call graph + symbolic execution of constructors and binders (pyvc + z3); exhaustive finite cross-check on the real code',
 }
